@@ -134,7 +134,9 @@ def main(argv=None):
             print(f"PARTIAL {h.name}: {tot.inconclusive} paths left undecided ({tot.inconclusive_reasons}); they count as unexplored")
         elif tot.inconclusive:
             inconclusive.append((h.name, f"{tot.inconclusive} inconclusive paths: {tot.inconclusive_reasons}"))
-        if tot.unknown:
+        if tot.unknown and getattr(h, "partial_ok", False):
+            print(f"PARTIAL {h.name}: {tot.unknown} obligations left undecided by the solver within its time-out")
+        elif tot.unknown:
             inconclusive.append((h.name, f"{tot.unknown} obligations unknown"))
         if tot.paths == 0 or (tot.obligations == 0 and not getattr(h, "no_obligations_ok", False)):
             vacuous.append((h.name, "no path reached an obligation"))
